@@ -74,9 +74,41 @@ class Rig:
             raise RuntimeError(f"user callback failure #{idx}")
 
     # -- life cycle -------------------------------------------------------------------------
-    def make_bridge(self):
+    def callback(self, form="bound-method"):
+        """The user callback in one of several legitimate shapes (all end up in self.on_device)."""
+        import functools
+        if form == "function":
+            def on_device(device):
+                return self.on_device(device)
+            return on_device
+        if form == "partial":
+            return functools.partial(Rig.on_device, self)
+        if form == "unreferenced-owner":
+            # bound method of an object nobody else keeps alive: the bridge's reference must be enough
+            class Handler:
+                def __init__(self, sink):
+                    self.sink = sink
+
+                def handle(self, device):
+                    return self.sink(device)
+            import gc
+            cb = Handler(self.on_device).handle
+            gc.collect()
+            return cb
+        if form == "falsy-callable":
+            # a callable collection that is empty (falsy) when the bridge is built
+            rig = self
+
+            class Devices(list):
+                def __call__(self, device):
+                    self.append(device)
+                    return rig.on_device(device)
+            return Devices()
+        return self.on_device
+
+    def make_bridge(self, form="bound-method"):
         from aioswitcher.bridge import SwitcherBridge
-        self.bridge = SwitcherBridge(self.on_device, list(self.ports))
+        self.bridge = SwitcherBridge(self.callback(form), list(self.ports))
         return self.bridge
 
     def observe(self):
@@ -108,8 +140,11 @@ class Rig:
         return [(w.category.__name__, str(w.message)) for w in wlist
                 if in_repo(w.filename) or "switcher" in str(w.message).lower()]
 
-    async def start(self):
-        self.make_bridge()
+    async def start(self, form="bound-method"):
+        self.make_bridge(form)
+        if form == "unreferenced-owner":
+            import gc
+            gc.collect()
         self.observe()
         await self.bridge.start()
 
